@@ -1040,6 +1040,13 @@ func (c *specCtx) call(n *SCall) (Val, types.Type) {
 			c.fail("tokkind needs a string literal")
 		}
 		return scalar(c.e.tokKind(s.V)), untypedInt
+	case "isEncoder":
+		// isEncoder(x): the dynamic type of interface value x implements perunio.Encoder
+		v, _ := arg(0)
+		if len(v.T) != 2 {
+			c.fail("isEncoder needs an interface value")
+		}
+		return scalar(tb.App("implements_wire_perunio.Encoder", SBool, v.T[0])), boolType
 	case "marshalOf", "encOf":
 		// marshalOf(x) / encOf(x): the token value that stands for x.MarshalBinary() / x.Encode of a value of unknown dynamic type
 		v, _ := arg(0)
